@@ -293,10 +293,15 @@ def patch_listener_module():
     def cb_join(self, *a, **k):
         s = _sched()
         if s is not None and s.me() is not None:
+            timeout = k.get('timeout', a[0] if a else None)
+            w = _CUR['world']
+            w.join_has_timeout = timeout is not None
             _park('join')
             t = s.ts.get('cb')
             if t is not None and t.obj is self and not t.done:
-                w = _CUR['world']
+                if timeout is not None:
+                    # time is abstracted: a join with a timeout may give up whenever the thread has not ended
+                    return L.ExceptionHandlingThread.join(self, 0)
                 w.notes.append('join() entered while the callback thread has not ended')
                 raise Abort()
         return L.ExceptionHandlingThread.join(self, *a, **k)
@@ -390,6 +395,47 @@ class FakeSock:
 
 # --------------------------------------------------------------------------- one scheduled run of the real code
 
+class QuietError(Exception):
+    """an exception class of the user: overrides __init__ without calling the base class (args == ())"""
+
+    def __init__(self, what):              # pylint: disable=super-init-not-called
+        self.what = what
+
+    def __str__(self):
+        return 'QuietError(%s)' % self.what
+
+
+def raise_flavour(n, k):
+    """the ways a callback can fail with an Exception; chosen from the indication so that replays are deterministic"""
+    f = n % 6
+    if f == 0:
+        raise RuntimeError('callback %d raises' % k)
+    if f == 1:
+        raise ValueError()                          # no arguments
+    if f == 2:
+        raise KeyError()
+    if f == 3:
+        raise QuietError(k)                         # args == () although constructed with an argument
+    if f == 4:
+        raise OSError(5, 'callback I/O error')      # two arguments, first not a string
+    raise StopIteration                             # raised as a class
+
+
+class CallbackRecorder:
+    def __init__(self, world, k):
+        self.world, self.k = world, k
+
+    def callback(self, indication, host):
+        w, k = self.world, self.k
+        s = w.sched
+        s.park('enter%d' % k)
+        j, q = int(indication['Sender']), int(indication['Seq'])
+        w.log.append((k, j, q))
+        cmd = s.park('incb%d' % k)
+        if cmd == 'raise':
+            raise_flavour(j + q + k, k)
+
+
 class World:
     """the real listener + harness threads of one run"""
 
@@ -401,6 +447,7 @@ class World:
         self.n_model_calls = len(calls)
         self.sched = Sched()
         self.servers = []
+        self.join_has_timeout = False
         self.cur = {}                           # kind -> the server object created last
         self.closing = None
         self.https_port = (51000 + os.getpid() % 10000) if cfg.get('https') else None
@@ -416,8 +463,13 @@ class World:
                                             certfile='cert.pem' if cfg.get('https') else None,
                                             keyfile='key.pem' if cfg.get('https') else None,
                                             max_ind_queue_size=cfg['maxQ'])
-        for k in range(cfg['ncb']):
-            self.listener.add_callback(self.make_callback(k))
+        self.recorders = [self.make_callback(k) for k in range(cfg['ncb'])]
+        for r in self.recorders:
+            self.listener.add_callback(r.callback)
+        # "If the callback function is already known to the listener, it will not be added": register every
+        # callback again (fresh bound-method objects, other order) - the set of registered callbacks must not change
+        for r in reversed(self.recorders):
+            self.listener.add_callback(r.callback)
         self.threads = []
 
     def server_for(self, j):
@@ -431,15 +483,9 @@ class World:
         return (int(ind['Sender']), int(ind['Seq']))
 
     def make_callback(self, k):
-        def callback(indication, host):
-            s = self.sched
-            s.park('enter%d' % k)
-            self.log.append((k, int(indication['Sender']), int(indication['Seq'])))
-            cmd = s.park('incb%d' % k)
-            if cmd == 'raise':
-                raise RuntimeError('callback %d raises' % k)
-        callback.__name__ = 'callback%d' % k
-        return callback
+        """callback k as a *bound method* of a recorder object: every `rec.callback` expression is a new,
+        equal (==) but not identical (is) object, like the methods users register"""
+        return CallbackRecorder(self, k)
 
     # harness threads ---------------------------------------------------------
     def main_body(self):
@@ -546,7 +592,7 @@ class World:
                 return len(self.outcomes) < len(self.calls) and self.next_call_allowed()
             if t.tag == 'join':
                 c = s.ts.get('cb')
-                return c is None or c.done
+                return c is None or c.done or self.join_has_timeout
             if t.tag == 'server_close':
                 import pywbem._listener as L
                 joins = (not getattr(L.ThreadedHTTPServer, 'daemon_threads', False)) and \
@@ -638,7 +684,20 @@ def run_real(cfg, labels, pcs, extra_calls=('start', 'stop'), walk=None):
     """drive the real listener along `labels` (or, with walk={seed,maxlen,perSender,starts,sticky}, along a
     schedule chosen from the real enabledness); returns the observation dict"""
     patch_listener_module()
+    # a (shrunk) label list must stay a legal use of the API: never start() on a started listener, and the
+    # restart probe begins on a stopped one
+    legal, up = [], False
+    for l in (labels or []):
+        if l == 'start' and up:
+            continue
+        if l in ('start', 'stop'):
+            up = (l == 'start')
+        legal.append(l)
+    if labels is not None and len(legal) != len(labels):
+        labels, pcs = legal, None
     calls = [l for l in (labels or []) if l in ('start', 'stop')]
+    if up:
+        extra_calls = ('stop',) + tuple(extra_calls)
     w = World(cfg, calls, extra_calls if walk is None else ())
     _CUR['sched'], _CUR['world'] = w.sched, w
     s = w.sched
@@ -1060,7 +1119,7 @@ def _register_module():
         sys.modules[__name__] = m
 
 
-EXPECTED_FACTS = {'putNonBlocking': True, 'handlerThreadsJoined': True, 'clearAfterJoin': True,
+EXPECTED_FACTS = {'joinWithoutTimeout': True, 'dedupByEquality': True, 'putNonBlocking': True, 'handlerThreadsJoined': True, 'clearAfterJoin': True,
                   'localQueueRef': True, 'callbackExceptionCaught': True, 'queueFullStatus': 1,
                   'stopOrder': ['_stop_listener_threads', '_stop_indication_delivery']}
 
@@ -1184,15 +1243,18 @@ def smoke_once(delay_cb, n_ind, stop_after, maxq=0, ncb=1, restart=True):
     li.queue_get_timeout = 0.2
     log = []
 
-    def mk(k):
-        def cb(ind, host):
+    class Rec:
+        def __init__(self, k):
+            self.k = k
+
+        def cb(self, ind, host):
             time.sleep(delay_cb)
-            log.append((k, int(ind['Sender']), int(ind['Seq'])))
-            if k == 0 and int(ind['Seq']) % 2 == 1:
-                raise RuntimeError('x')
-        return cb
-    for k in range(ncb):
-        li.add_callback(mk(k))
+            log.append((self.k, int(ind['Sender']), int(ind['Seq'])))
+            if self.k == 0 and int(ind['Seq']) % 2 == 1:
+                raise_flavour(int(ind['Seq']) // 2 + 1, self.k)      # 1, 3, 5: ValueError(), QuietError, StopIteration
+    recs = [Rec(k) for k in range(ncb)]
+    for r in recs + recs[::-1]:              # registered twice (fresh bound methods): must count once
+        li.add_callback(r.cb)
     before = set(threading.enumerate())
     res = {'responses': [], 'outcomes': [], 'log': log}
     li.start()
@@ -1205,14 +1267,17 @@ def smoke_once(delay_cb, n_ind, stop_after, maxq=0, ncb=1, restart=True):
         res['responses'].append(classify_response(raw))
         c.close()
     time.sleep(stop_after)
+    left = []
     for call in (['stop', 'start', 'stop'] if restart else ['stop']):
         try:
             getattr(li, call)()
             res['outcomes'].append((call, None))
         except Exception as e:                                   # noqa
             res['outcomes'].append((call, type(e).__name__))
+        if call == 'stop':                   # right when stop() returns: nothing of the listener may be alive
+            left += [t.name for t in set(threading.enumerate()) - before if t.is_alive()]
     time.sleep(0.05)
-    res['left_threads'] = sorted(t.name for t in set(threading.enumerate()) - before if t.is_alive())
+    res['left_threads'] = sorted(left + [t.name for t in set(threading.enumerate()) - before if t.is_alive()])
     # "no bound port left": nobody listens any more (a plain bind() probe would also fail on TIME_WAIT
     # remains of the finished connections, which is not what the property is about)
     s = socket.socket()
@@ -1250,7 +1315,8 @@ def smoke_check(res, ncb):
 
 
 SMOKE = [  # (callback seconds, indications, seconds before stop, maxq, ncb)
-    (0.3, 1, 0.05, 0, 1),      # stop() while the only indication is inside the callback (the original defect)
+    (0.7, 1, 0.05, 0, 1),      # stop() while the only indication is inside a callback that runs much longer than
+                               # the get timeout (0.2 s): the original defect; also a stop() that gives up waiting
     (0.0, 5, 0.0, 0, 2),
     (0.05, 6, 0.0, 2, 1),      # bounded queue: some refused
     ('failed-start', 0, 0.0, 0, 1),   # start() failing after the HTTP server thread was started
